@@ -63,7 +63,7 @@ struct Crash : Profile {
     }
     std::vector<std::string> required_probes() const override
     {
-        return {"crash-images", "images-inside-flush", "new-dd-block-in-session", "session-hv-new", "session-other", "flush-start-site-checked"};
+        return {"crash-images", "images-inside-flush", "new-dd-block-in-session", "session-hv-new", "session-other", "flush-start-site-checked", "mixed-dd-block-sizes"};
     }
 
     Plan generate(Rng &rng, bool thorough, uint64_t) override
@@ -74,6 +74,11 @@ struct Crash : Profile {
         p.knobs["ndds"]   = kr.chance(0.7) ? kr.range(1, 6) : kr.range(7, 20); // small: new DD blocks happen
         int kind          = kr.chance(0.55) ? 0 : 1; // 0: only new H elements / Vdatas / Vgroups; 1: everything
         p.knobs["kind"]   = kind;
+        // the format stores a descriptor count in every block, and the library reads files whose blocks differ in size
+        // (other writers produce them): in some cases an empty block of another size is linked to the end of the base
+        // file's chain before the session begins (> 0: that many descriptors more than the last block, < 0: fewer)
+        Rng gr            = rng.sub(3);
+        p.knobs["grow"]   = gr.chance(0.3) ? (gr.chance(0.75) ? gr.range(1, 9) : -gr.range(1, 3)) : 0;
         Rng r             = rng.sub(2);
         int na = (int)r.range(2, 9), nb = (int)r.range(1, thorough ? 12 : 8);
         int maxlen = r.chance(0.3) ? 600 : 60;
@@ -168,6 +173,47 @@ struct Crash : Profile {
         return end;
     }
 
+    // Link an empty descriptor block of another size to the end of the (closed) file's chain: a well-formed file that
+    // this library does not write itself but reads.  False if the chain cannot be followed.
+    static bool append_dd_block(const std::string &path, int64_t grow)
+    {
+        auto it = simfs::disk().find(path);
+        if (it == simfs::disk().end() || !it->second || simfs::open_streams() != 0)
+            return false;
+        std::vector<uint8_t> f = simfs::file_bytes(simfs::disk(), path);
+        auto be16 = [&](size_t o) { return (int64_t)((f[o] << 8) | f[o + 1]); };
+        auto be32 = [&](size_t o) { return (int64_t)(int32_t)(((uint32_t)f[o] << 24) | ((uint32_t)f[o + 1] << 16) | ((uint32_t)f[o + 2] << 8) | f[o + 3]); };
+        size_t blk = 4, last = 0;
+        int64_t last_n = 0;
+        int     guard = 0;
+        while (blk != 0 && blk + 6 <= f.size() && guard++ < 100000) {
+            int64_t ndds = be16(blk), next = be32(blk + 2);
+            if (ndds <= 0 || blk + 6 + (size_t)ndds * 12 > f.size())
+                return false;
+            last   = blk;
+            last_n = ndds;
+            blk    = next > 0 ? (size_t)next : 0;
+        }
+        if (last == 0 || blk != 0)
+            return false;
+        int64_t n = std::max<int64_t>(1, last_n + grow);
+        if (n == last_n)
+            return false;
+        int64_t at = (int64_t)f.size();
+        std::vector<uint8_t> b((size_t)(6 + n * 12), 0xff);
+        b[0] = (uint8_t)(n >> 8);
+        b[1] = (uint8_t)n;
+        b[2] = b[3] = b[4] = b[5] = 0;
+        for (int64_t i = 0; i < n; i++) {
+            size_t d = (size_t)(6 + i * 12);
+            b[d] = 0, b[d + 1] = DFTAG_NULL, b[d + 2] = 0, b[d + 3] = 0; // offset and length stay -1
+        }
+        uint8_t link[4] = {(uint8_t)(at >> 24), (uint8_t)(at >> 16), (uint8_t)(at >> 8), (uint8_t)at};
+        it->second->write(at, b.data(), (int64_t)b.size());
+        it->second->write((int64_t)last + 2, link, 4);
+        return true;
+    }
+
     // mode 0: record.  mode 1: verify an image given in *ctx.in.
     void execute(Ctx &ctx) override
     {
@@ -185,6 +231,8 @@ struct Crash : Profile {
                 const Op &o = p.ops[i];
                 if (o.kind == "mark") {
                     mx.add_only = true;
+                    if (p.knob("grow", 0) != 0 && append_dd_block(mx.path, p.knob("grow", 0)))
+                        ctx.probe("mixed-dd-block-sizes");
                     d0      = simfs::disk_serialize(simfs::disk());
                     l0      = logical_end(simfs::file_bytes(simfs::disk(), mx.path), &ddblocks);
                     simfs::keep_writelog(true);
